@@ -211,6 +211,19 @@ class Agg:
 			raise Vacuous(f'non-vacuity counter {name!r} = {self.counters.get(name, 0)} < {minimum}')
 
 
+def anchor_coverage(pid, tier):
+	"""Reporting only (see mc/anchors.py): which anchored line ranges a representative in-process slice of the check executes."""
+	budget = 4 if tier == 'quick' else 20
+	try:
+		r = subprocess.run([sys.executable, '-m', 'mc.anchors', pid, tier, str(budget)], capture_output=True, text=True, timeout=budget * 4 + 60)
+		for line in r.stdout.splitlines():
+			if line.startswith('ANCHORS '):
+				return json.loads(line[8:])
+		return dict(status='unavailable', detail=(r.stderr or '')[-300:])
+	except Exception as e:
+		return dict(status='unavailable', detail=repr(e)[:300])
+
+
 def load_findings():
 	if not os.path.exists(FINDINGS):
 		return {'known': [], 'fixed': []}
@@ -360,6 +373,8 @@ def main(argv=None):
 			hidden_new += max(0, s_.get('nviol_unkeyed', 0) - kept_unkeyed)
 		if not new and not capped_by_filter:
 			mod.finalize(agg, args.tier)
+			if not os.environ.get('VERIF_NO_ANCHORS'):
+				agg.coverage_extra['anchor_coverage'] = anchor_coverage(pid, args.tier)
 		known_lines = []
 		for key, (e, n) in sorted(known.items()):
 			line = f'KNOWN-FINDING: property={pid} {e["text"]}'
